@@ -79,8 +79,9 @@ Fixpoint check_ptrs (p : ptr) (lo hi : Z) (cursor : Z) {struct p} : bool * Z :=
   match p with
   | PFixed a | PList a _ => ((cursor <=? a) && in_range a lo hi, a)
   | PRem a _ => ((cursor <=? a) && (in_range a lo hi || (a =? hi)), a)   (* an empty tail may sit at the end of the allocation *)
-  | PUList a _ inner _ _ _ =>
-      let ic := match inner with Some q => fst (check_ptrs q lo hi lo) | None => true end in
+  | PUList a _ inner pmb _ _ =>
+      (* the recorded inner pointer takes part only while a mutable borrow of an element may be live (D26) *)
+      let ic := match inner with Some q => if pmb then fst (check_ptrs q lo hi lo) else true | None => true end in
       ((cursor <=? a) && in_range a lo hi && ic, a)
   | PStruct fs =>
       (fix go fs cursor :=
